@@ -7,6 +7,7 @@ import (
 	"fmt"
 	"net"
 	"os"
+	"runtime/debug"
 	"sync"
 	"syscall"
 	"time"
@@ -101,7 +102,27 @@ type Config struct {
 var ErrTimeout = errors.New("session i/o deadline exceeded (inconclusive)")
 
 // Session is a running proxy between the scripted client and the fake database.
+type panics struct {
+	mu   sync.Mutex
+	list []string
+}
+
+func (p *panics) add(s string) {
+	p.mu.Lock()
+	p.list = append(p.list, s)
+	p.mu.Unlock()
+}
+
+// Panics returns the panics recovered in the proxy's connection loops (acra-server's recoverConnection
+// would have logged them and closed the session).
+func (s *Session) Panics() []string {
+	s.pan.mu.Lock()
+	defer s.pan.mu.Unlock()
+	return append([]string(nil), s.pan.list...)
+}
+
 type Session struct {
+	pan       *panics
 	fe        *pgproto3.Frontend
 	clientEnd net.Conn
 	dbEnd     net.Conn
@@ -190,8 +211,20 @@ func Start(cfg Config) (*Session, error) {
 	proxy.AddClientIDObserver(ac)
 	cs.ctx = base.SetAccessContextToContext(cs.ctx, ac)
 	errCh := make(chan base.ProxyError, 4)
-	go proxy.ProxyClientConnection(cs.ctx, errCh)
-	go proxy.ProxyDatabaseConnection(cs.ctx, errCh)
+	pan := &panics{}
+	// acra-server runs both loops under recoverConnection: a panic is logged and the session closed
+	guard := func(name string, f func()) {
+		defer func() {
+			if p := recover(); p != nil {
+				pan.add(fmt.Sprintf("%s: %v\n%s", name, p, debug.Stack()))
+				acraClient.Close()
+				acraDB.Close()
+			}
+		}()
+		f()
+	}
+	go guard("ProxyClientConnection", func() { proxy.ProxyClientConnection(cs.ctx, errCh) })
+	go guard("ProxyDatabaseConnection", func() { proxy.ProxyDatabaseConnection(cs.ctx, errCh) })
 
 	store := cfg.Store
 	if store == nil {
@@ -201,7 +234,7 @@ func Start(cfg Config) (*Session, error) {
 	go srv.serve()
 
 	ct := &tap{Conn: clientEnd}
-	s := &Session{fe: pgproto3.NewFrontend(ct, ct), clientEnd: clientEnd, dbEnd: dbEnd, acraC: acraClient, acraD: acraDB, DB: srv, ProxyErrs: errCh, timeout: cfg.Timeout, clientTap: ct}
+	s := &Session{pan: pan, fe: pgproto3.NewFrontend(ct, ct), clientEnd: clientEnd, dbEnd: dbEnd, acraC: acraClient, acraD: acraDB, DB: srv, ProxyErrs: errCh, timeout: cfg.Timeout, clientTap: ct}
 	clientEnd.SetDeadline(time.Now().Add(cfg.Timeout))
 	s.fe.Send(&pgproto3.StartupMessage{ProtocolVersion: pgproto3.ProtocolVersionNumber, Parameters: map[string]string{"user": "verif", "database": "verif"}})
 	if err := s.fe.Flush(); err != nil {
